@@ -48,7 +48,8 @@ def growBound : List (SRec σ) → Int
 
 def sRecOk (isolated : Bool) (r : SRec σ) (older : List (SRec σ)) : Bool :=
   match r.op, r.out with
-  | .req rm m u sel, .early st body tag (.raw ra) => older.any (sJustifies isolated r.t rm m u sel st body tag ra)
+  | .req rm m u sel, .early st body tag (.raw ra) extra =>
+    decide (extra = 0) && older.any (sJustifies isolated r.t rm m u sel st body tag ra)
   | .req _ _ _ _, .noop => true
   | .req _ _ _ _, _ => false
   | .probe, .probed tracked held _ _ =>
